@@ -4,6 +4,7 @@
    insertion-ordered cache of model/QCache.v; specification: `od_step` of model/Index.v (validated against
    collections.OrderedDict by the harness on every run); concurrent clause: model/IndexConc.v. *)
 From DC Require Import DCPrelude PersistentBase Gen_Persistent QCache Index IndexConc IndexFacts IndexConcFacts.
+From DC Require Import Val DiskBase SqlBase Disk Cache Conc Txn TxnFacts TxnBlock TxnBlockFacts SetdefaultFacts.
 
 (* assignment, lookup, deletion, pop (with and without default), popitem / peekitem from either end,
    setdefault, update, keys / values / items, == and != against ordered and unordered mappings, iteration
@@ -58,3 +59,28 @@ Theorem C12_continuous_presence_inline : forall v0 ws sched,
   lookup_result (run (init false v0 ws) sched) <> Some None.
 Proof. exact continuous_presence_inline. Qed.
 Print Assumptions C12_continuous_presence_inline.
+
+(* "each operation is atomic": setdefault.  The code runs its lookup / add loop inside one transaction
+   (Gen_Persistent.index_setdefault_retry, index_setdefault_add with qc_in_txn = true; fixed by the template of
+   tools/emit_persistent.py), which is one block of the machine of model/Conc.v.  For every number of clients,
+   every program of the others (single calls and blocks over the real transaction bodies), every schedule and
+   every kill: when the block commits, the committed state becomes, in one step, the result of `add` on the
+   committed state the block started from, and the lock is free again. *)
+Theorem C12_setdefault_atomic : forall c (progs : nat -> list bcall) sched i k v now pg f o,
+  let cf := exec (init_config init_st (fun i => map (bcompile c) (progs i))) sched in
+  c_pc (cl cf i) = AtCommit (w_block true [w_add true c k v false None SNull now pg] false) f o -> bo_ok o = true ->
+  exists c', cstep cf i = Some c' /\ db c' = bo_db (body_add c k v false None SNull now pg (db cf) None) /\ lock c' = None.
+Proof. exact setdefault_commit_atomic. Qed.
+Print Assumptions C12_setdefault_atomic.
+
+(* non-vacuity, and the defect that was repaired (known_findings.txt, fixed: property=C12): as three separate calls
+   (lookup, add, lookup) a pop of the key placed between the add and the second lookup makes setdefault add the key
+   a second time -- one setdefault, one successful pop, key still present -- which is the outcome of neither order of
+   the two operations; the block gives one of the two orders under every placement of the pop. *)
+Theorem C12_setdefault_as_separate_calls_refuted :
+  summary (placed old_path [BOne c_pop] 6) = ([miss; ORes (RBool true); miss; ORes (RBool true); hit], [hit], 1%nat, true) /\
+  (let s := summary (placed old_path [BOne c_pop] 6) in summary_eqb s order_sd_pop || summary_eqb s order_pop_sd = false) /\
+  forallb (fun n => let s := summary (placed new_prog [BOne c_pop] n) in summary_eqb s order_sd_pop || summary_eqb s order_pop_sd)
+          (seq 0 40) = true.
+Proof. exact (conj old_setdefault_adds_twice (conj old_outcome_is_no_order repaired_setdefault_every_placement)). Qed.
+Print Assumptions C12_setdefault_as_separate_calls_refuted.
